@@ -232,6 +232,65 @@ def r2_ref_patterns(text, log):
     return ''.join(out)
 
 
+def r2_some_ref(text, log):
+    """R2, general form: `Some(&PAT)` in `if let`/`while let`/match arms, PAT any (Copy) pattern:
+       if let Some(&PAT) = E {        -> if let Some(p__rN) = E { let PAT = *p__rN;
+       Some(&PAT) => EXPR,            -> Some(p__rN) => { let PAT = *p__rN; EXPR },"""
+    from .rustscan import next_code, OPEN, CLOSE
+    n = 0
+    while True:
+        mask = code_mask(text)
+        hit = None
+        for mm in re.finditer(r'\bSome\(\s*&', text):
+            if mask[mm.start()] != CODE:
+                continue
+            cp0 = match_close(text, mask, mm.start() + 4)
+            k0 = cp0 + 1
+            while k0 < len(text) and text[k0] in ' \t\r\n':
+                k0 += 1
+            # a pattern is followed by `=>` (match arm) or a single `=` (if/while let); anything else is an expression
+            if text.startswith('=>', k0) or (text[k0:k0 + 1] == '=' and text[k0:k0 + 2] != '=='):
+                hit = mm
+                break
+        if not hit:
+            return text
+        n += 1
+        op = hit.start() + 4
+        cp = match_close(text, mask, op)
+        pat = text[hit.end():cp].strip()
+        if pat.startswith('mut '):
+            pat = pat[4:]
+        name = 'p__r%d' % n
+        k = cp + 1
+        while text[k] in ' \t\r\n':
+            k += 1
+        if text.startswith('=>', k):
+            b = k + 2
+            while text[b] in ' \t\r\n':
+                b += 1
+            if text[b] == '{':
+                new = text[:hit.start()] + 'Some(%s)' % name + text[cp + 1:b + 1] + ' let %s = *%s;' % (pat, name) + text[b + 1:]
+            else:
+                e = b
+                while e < len(text):
+                    if mask[e] == CODE:
+                        if text[e] in OPEN:
+                            e = match_close(text, mask, e)
+                        elif text[e] == ',' or text[e] in CLOSE:
+                            break
+                    e += 1
+                new = text[:hit.start()] + 'Some(%s)' % name + text[cp + 1:b] + '{ let %s = *%s; %s }' % (pat, name, text[b:e].strip()) + text[e:]
+        elif text[k] == '=':
+            ob = next_code(text, mask, k, '{')
+            if ob < 0:
+                raise ScanError('R2: Some(&pat) = .. without a block')
+            new = text[:hit.start()] + 'Some(%s)' % name + text[cp + 1:ob + 1] + ' let %s = *%s;' % (pat, name) + text[ob + 1:]
+        else:
+            raise ScanError('R2: unsupported context for Some(&%s)' % pat)
+        log.append(dict(rule='R2', before='Some(&%s)' % pat, after='Some(%s) .. let %s = *%s;' % (name, pat, name)))
+        text = new
+
+
 def r2_closure_params(text, log):
     """R2 for closures: `|&x| BODY` -> `|x__r| { let x = *x__r; BODY }` (single by-reference pattern parameter)."""
     while True:
